@@ -366,7 +366,11 @@ def run(ctx):
                    'object balance on every path, IncRef first', minimum=4)
     from rules import lib_attach
     rho = ctx.rule('R-HANDOFF', 'a When* combinator is not touched after its last input has been registered: the registration loop\'s condition / increment and the code after it work on locals only', minimum=2)
+    rfr = ctx.rule('R-FACTORYREFS', 'a factory of a shared state builds every handle on the fresh core as an adopting one, and the initial count is kSharedRefNoFuture plus the future handles it hands out', minimum=4)
     for cfg, fb in sorted(fbs.items()):
+        from rules import lib_factory
+        if (ctx.guard(lambda: lib_factory.check_factory_refs(ctx, fb, rfr)) or 0) < 4:
+            ctx.guard(lambda: ctx.broken('R-FACTORYREFS: the shared factories are not instantiated in %s' % cfg))
         from rules import lib_when as _lw2, lib_handoff as _lh
         ctx.guard(lambda: _lh.check_handoff_helpers(ctx, fb, rho))
         if (ctx.guard(lambda: _lw2.check_handoff_loops(ctx, fb, rho)) or 0) < 1:
